@@ -126,35 +126,57 @@ def _adopt(parent, child):
     parent.stop = child.stop
 
 
-def single_arg(parent, ttype, text, line=1):
+def single_arg(parent, ttype, text, line=1, column=0):
     c = P.Single_argumentContext(None, parent)
-    term(c, ttype, text, line)
+    term(c, ttype, text, line, column)
     _adopt(parent, c)
     return c
 
 
-def compound_arg(parent, args, line=1):
+def compound_arg(parent, args, line=1, pos=None):
     c = P.Compound_argumentContext(None, parent)
-    term(c, P.T__0, "(", line)
-    add_args(c, args, line)
-    term(c, P.T__1, ")", line)
+    if pos is not None:
+        l0, c0 = pos.next()
+        term(c, P.T__0, "(", l0, c0)
+    else:
+        term(c, P.T__0, "(", line)
+    add_args(c, args, line, pos)
+    if pos is not None:
+        l1, c1 = pos.next()
+        term(c, P.T__1, ")", l1, c1)
+    else:
+        term(c, P.T__1, ")", line)
     _adopt(parent, c)
     return c
 
 
-def add_args(parent, args, line=1):
+class Positions:
+    """hands out (line, column) pairs for consecutive tokens"""
+    def __init__(self, pairs):
+        self.pairs, self.i = pairs, 0
+
+    def next(self):
+        p = self.pairs[self.i]
+        self.i += 1
+        return p
+
+
+def add_args(parent, args, line=1, pos=None):
     for a in args:
         if isinstance(a, list):
-            compound_arg(parent, a, line)
+            compound_arg(parent, a, line, pos)
+        elif pos is not None:
+            l, c = pos.next()
+            single_arg(parent, a[0], a[1], l, c)
         else:
             single_arg(parent, a[0], a[1], line)
 
 
-def command(parent, name, args, line=1, column=0):
+def command(parent, name, args, line=1, column=0, pos=None):
     c = P.Command_invocationContext(None, parent)
     term(c, P.Identifier, name, line, column)
     term(c, P.T__0, "(", line)
-    add_args(c, args, line)
+    add_args(c, args, line, pos)
     term(c, P.T__1, ")", line)
     _adopt(parent, c)
     return c
@@ -167,7 +189,7 @@ def doccomment(parent, text, line=1):
     return c
 
 
-def file_ctx(items, module_doc=None, line0=1, column=0, lines=None):
+def file_ctx(items, module_doc=None, line0=1, column=0, lines=None, argpos=None):
     """items: list of (doc_text_or_None, name, args); name None => dangling doccomment; args: (type, text) or nested list.
     lines: optional start line per item (of its doccomment if it has one, else of the command); the command of a documented
     item starts 3 lines below its doccomment."""
@@ -186,10 +208,10 @@ def file_ctx(items, module_doc=None, line0=1, column=0, lines=None):
         elif doc is not None:
             dc = P.Documented_commandContext(None, root)
             doccomment(dc, doc, line)
-            command(dc, name, args, line + 3, column)
+            command(dc, name, args, line + 3, column, argpos)
             _adopt(root, dc)
         else:
-            command(root, name, args, line, column)
+            command(root, name, args, line, column, argpos)
         line = line + 1
         i += 1
     term(root, -1, "<EOF>", line)
